@@ -38,23 +38,23 @@ CLAIMS = {
   "Lean 4 proof (Mathlib: invariance of the energy expressions, uniqueness of derivatives for zero net force) + rigid-motion search on the real code", "DESIGN.md §5 C03"),
  "C04": ("proof",
   "PARTIAL. Proved for all answer histories on the optimiser model: Molecule::optimise changes only the coordinates (frame); a start meeting the convergence criterion is returned unchanged bit for bit; the energies the optimiser remembers are never rising; one descent step with alpha*L <= 2 does not raise an L-smooth energy (reals). NOT proved: the unconditional 'never higher' clause on UFF/RB (floating-point trajectory of a non-convex function; the optimiser is blind to the energy after five evaluations per restart) — explored on the real optimiser over generated molecules inside the stated domain, with before/after snapshots of atoms, connectivity and terms.",
-  TB + "Modelled: optimiser loop (recorded-history correspondence). The energy clause is exploration only; collinear-centre NaN is a recorded known finding.",
+  TB + "Modelled: optimiser loop (recorded-history correspondence). The energy clause is exploration only; recorded known findings: overflow-scale bend coefficients at theta0 = pi (C06's), singular inversion/torsion terms at collinear neighbours (C06's), and a fixed-step walk that climbs after the five monitored energies fell. The collinear-bend NaN was repaired in /repo (0aa9bd3).",
   "Lean 4 proof of frame/fixed-point/monotone-history/descent-step on the optimiser model + search on the real optimiser for the energy clause", "DESIGN.md §5 C04"),
  "C05": ("proof",
   "For every answer list (hence every force field behind the trait, stateful or NaN-answering ones included), every start, step length and budget, over an arbitrary scalar: the passes form a Walk — each gradient request is at the previous geometry moved against the previous gradient by the one step length in force, or at the input geometry with the step length halved; the step length is only ever kept or halved; at most maxIter gradient requests; the run ends early exactly when the last gradient met the convergence test and never continues past one; the returned coordinates are the last pass's. Proved by induction over the loop fuel on the hand model, which reproduces recorded request histories of the real optimiser bit for bit.",
   TB + "Modelled: the optimiser loop (corresponded on recorded histories incl. synthetic force fields). Real-arithmetic reading of the convergence measure for n>0.",
   "Lean 4 proof (induction over loop fuel, all answer histories, abstract scalar) + bit-exact request-history correspondence", "DESIGN.md §5 C05"),
  "C06": ("proof",
-  "PARTIAL. Proved: term construction is total for any numeric layer/typing/geometry (no type name reaches todo!() in the source as translated on this run; every rest-length lookup of a bend succeeds because angles are bonded paths; every row of the compiled type table carries an element symbol), the bend energies are regular exactly off r_ij = 0, r_kj = 0, sin(theta) = 0, the cosine-harmonic coefficient divides by zero iff sin(theta0) = 0, and the 17 table rows with theta0 = pi are enumerated by kernel evaluation. The verdict itself (no abort, no NaN/inf, no overflow-scale energy for inputs with pairwise distances >= 0.5 A) is a floating-point/panic property: explored on the real code over all elements, all coordination geometries in exact symmetry (axis-aligned and rotated), linear and planar molecules and fragments, with every failure attributed to a signature; two open defects are recorded as known findings.",
-  TB + "Floating-point behaviour at singular configurations is outside the model: exploration with attribution. Known findings: collinear-bend NaN; type-B bend with theta0 = pi.",
+  "PARTIAL. Proved: term construction is total for any numeric layer/typing/geometry (no type name reaches todo!() in the source as translated on this run; every rest-length lookup of a bend succeeds because angles are bonded paths; every row of the compiled type table carries an element symbol), the bend energies are regular exactly off r_ij = 0, r_kj = 0, sin(theta) = 0, the cosine-harmonic coefficient divides by zero iff sin(theta0) = 0, and the 17 table rows with theta0 = pi are enumerated by kernel evaluation. The verdict itself (no abort, no NaN/inf, no overflow-scale energy for inputs with pairwise distances >= 0.5 A) is a floating-point/panic property: explored on the real code over all elements, all coordination geometries in exact symmetry (axis-aligned and rotated), linear and planar molecules and fragments, with every failure attributed to the term that is singular; the collinear-bend defect was repaired in /repo (0aa9bd3: the model follows with Ex.clamp1 and a guarded program, and the guard's zero gradient on the collinear set is a lemma); three open defects are recorded as known findings.",
+  TB + "Floating-point behaviour at singular configurations is outside the model: exploration with attribution. Known findings: type-B bend with theta0 = pi; inversion centre with two neighbours collinear with it; torsion with an end atom on the axis of its central bond.",
   "Lean 4 proof of construction totality and of the singular-set map + attributed exploration of the real code (known findings listed)", "DESIGN.md §5 C06"),
  "C07": ("proof",
   "For every finite history of energy/gradient requests at arbitrary geometries (which is what numerical-gradient and optimise requests amount to), over an arbitrary scalar and arbitrary term semantics: the answers to a further energy / gradient request are the pure functions of terms and geometry (the buffer's contents never matter, only its length, which is invariant), asking twice gives the same gradient, every answer in the history is the pure value; a variant without the zeroing step is refuted by a two-request witness. The model object (started with a dirty buffer) reproduces recorded answer sequences of real UFF/RB objects bit for bit, and each real answer is compared with a fresh object's.",
   TB + "Modelled: Forcefield::energy/gradient bodies (corresponded on histories). &[Point] immutability is a type-level fact.",
   "Lean 4 proof (invariant over request histories, abstract scalar/terms) + bit-exact history correspondence + fresh-object oracle", "DESIGN.md §5 C07"),
  "C08": ("proof",
-  "For every permutation of the bond set's enumeration (= every hash seed): neighbour lists, the view atom typing reads (neighbours, aromatic count, order sum), impropers and non-bonded pairs are equal; angles and proper dihedrals are equal as key sets; the UFF stretch/bend/torsion/inversion/van-der-Waals lists are permutations of each other with equal atoms and parameters (rest-length lookup independent of position under unique keys); energy and gradient of permuted term lists are equal over the reals. The deterministic model reproduces every real construction bit for bit, and repeated constructions in one process plus repeated CLI runs are compared on low-symmetry inputs.",
-  TB + "Modelled: set traversals as arbitrary enumerations. Bond-order assignment (guess + hypervalency refinement) proved to commute with re-enumeration. Float sums differ by rounding (checked to 1e-9).",
+  "For every permutation of the bond set's enumeration (= every hash seed): neighbour lists, the view atom typing reads (neighbours, aromatic count, order sum), impropers and non-bonded pairs are equal; angles and proper dihedrals are equal as key sets; the UFF stretch/bend/torsion/inversion/van-der-Waals lists are permutations of each other with equal atoms and parameters (rest-length lookup independent of position under unique keys); energy and gradient of permuted term lists are equal over the reals; and the list sorted by a key that is unique within the set — the order in which the repaired code (d96d9b1) creates the terms — is the SAME list for every enumeration, as is any left-to-right accumulation over it (no algebraic law assumed), which is why repeated runs are now bit-identical. The deterministic model reproduces every real construction bit for bit, and repeated constructions in one process plus repeated CLI runs are compared on low-symmetry inputs.",
+  TB + "Modelled: set traversals as arbitrary enumerations. Bond-order assignment (guess + hypervalency refinement) proved to commute with re-enumeration. Before d96d9b1 float sums differed by rounding between runs and an unconverged optimisation amplified that (finding F17, fixed).",
   "Lean 4 proof (List.Perm invariance of every traversal) + bit-exact construction correspondence + repeated-construction / repeated-CLI search", "DESIGN.md §5 C08"),
  "C09": ("proof",
   "For every atom count, every distance predicate, every candidate order and every cap function: perceived bonds join distinct atoms within bonding distance, no pair twice, degree ≤ cap, and a pair within distance left unbonded has a saturated end (maximality); orders assignment keeps the pairs. Proved by loop invariants on the hand model of add_bonds/add_bond; the model (with candidate lists computed at f64 as the source does) is tied to the code by correspondence on crowded, tied, coincident and threshold geometries over all elements.",
